@@ -237,3 +237,25 @@ func (n *Node) cleanup() {
 
 // Base returns the real backend (memory backends only stay valid after Stop).
 func (n *Node) Base() storage.Store { return n.base }
+
+// ResetTo performs the "db reset" procedure the CLI does: stop the node, open a non-running Blockchain over the
+// same backend, Reset(h), and start the node again. Memory backends only.
+func (n *Node) ResetTo(h uint32) error {
+	if n.dir != "" {
+		return fmt.Errorf("ResetTo is supported on memory backends only")
+	}
+	n.Stop()
+	var st storage.Store = noCloseStore{n.base}
+	if n.wrap != nil {
+		st = n.wrap(st)
+	}
+	bc, err := core.NewBlockchain(st, n.Chain.Blockchain(n.Opts), nopLog)
+	if err != nil {
+		return fmt.Errorf("open for reset: %w", err)
+	}
+	if err := bc.Reset(h); err != nil {
+		_ = n.open()
+		return err
+	}
+	return n.open()
+}
